@@ -192,6 +192,86 @@ impl Exec {
         self.ft.set_faketime(self.now);
     }
 
+    /// cold twin of C14: the transaction verification cache is emptied before every verify step
+    fn cool_verify_cache(&mut self) {
+        if self.sc.verify_cache_cold {
+            let cache = self.node.shared.txs_verify_cache();
+            let mut g = cache.blocking_write();
+            if g.len() > 0 {
+                self.res.faults.inc("verify_cache_cleared");
+            }
+            g.clear();
+        }
+    }
+
+    /// C14: every verdict and every chain query answer, as (label, fingerprint) pairs; the
+    /// orchestrator compares the lists of twin runs that differ only in cache configuration
+    fn answers_digest(&mut self) -> serde_json::Value {
+        let mut out: Vec<(String, u64)> = Vec::new();
+        let shared = self.node.shared.clone();
+        let store = shared.store();
+        let verdicts = self.node.verdicts.lock().unwrap().clone();
+        for (k, (h, v)) in verdicts.iter().enumerate() {
+            let idx = self.w.by_hash.get(h).cloned().unwrap_or(usize::MAX);
+            let s = match v {
+                Ok(b) => format!("ok:{b}"),
+                Err(e) => format!("err:{}", e.split('(').next().unwrap_or("")),
+            };
+            out.push((format!("verdict[{k}]#{idx}"), fp_bytes(s.as_bytes())));
+        }
+        for b in 0..self.w.blocks.len() {
+            if b != 0 && !self.delivered_set.contains(&b) {
+                continue;
+            }
+            let blk = &self.w.blocks[b];
+            let h = blk.view.hash();
+            let q = |name: &str, bytes: Option<Vec<u8>>| -> (String, u64) {
+                (format!("{name}#{b}"), bytes.map(|x| fp_bytes(&x)).unwrap_or(0))
+            };
+            out.push(q("header", store.get_block_header(&h).map(|x| x.data().as_slice().to_vec())));
+            out.push(q("uncles", store.get_block_uncles(&h).map(|x| x.data().as_slice().to_vec())));
+            out.push(q("proposals", store.get_block_proposal_txs_ids(&h).map(|x| x.as_slice().to_vec())));
+            out.push(q("extension", store.get_block_extension(&h).map(|x| x.as_slice().to_vec())));
+            out.push(q("tx_hashes", Some(store.get_block_txs_hashes(&h).iter().flat_map(|x| x.as_slice().to_vec()).collect())));
+            out.push(q("body_len", Some((store.get_block_body(&h).len() as u64).to_le_bytes().to_vec())));
+            out.push(q("number", store.get_block_number(&h).map(|n| n.to_le_bytes().to_vec())));
+            out.push(q("main", Some(vec![store.is_main_chain(&h) as u8])));
+            out.push(q("epoch_index", store.get_block_epoch_index(&h).map(|x| x.as_slice().to_vec())));
+            // get_block panics on partially deleted blocks: only when the header is there
+            if store.get_block_header(&h).is_some() {
+                out.push(q("block", store.get_block(&h).map(|x| x.data().as_slice().to_vec())));
+            }
+            out.push(q(
+                "ext",
+                store.get_block_ext(&h).map(|e| {
+                    let mut v = Vec::new();
+                    v.extend(format!("{:?}|{}|{}|", e.verified, e.total_difficulty, e.total_uncles_count).into_bytes());
+                    v.extend(format!("{:?}|{:?}|{:?}", e.txs_fees, e.cycles, e.txs_sizes).into_bytes());
+                    v
+                }),
+            ));
+            for (ti, tx) in blk.view.transactions().iter().enumerate().take(4) {
+                out.push((
+                    format!("txinfo#{b}.{ti}"),
+                    store
+                        .get_transaction_info(&tx.hash())
+                        .map(|i| fp_bytes(format!("{:#x}|{}|{}", i.block_hash, i.block_number, i.index).as_bytes()))
+                        .unwrap_or(0),
+                ));
+                for oi in 0..tx.outputs().len().min(2) {
+                    let op = packed::OutPoint::new(tx.hash(), oi as u32);
+                    out.push((
+                        format!("cell#{b}.{ti}.{oi}"),
+                        store.get_cell_data(&op).map(|(d, hh)| fp_bytes(&[d.to_vec(), hh.as_slice().to_vec()].concat())).unwrap_or(0),
+                    ));
+                }
+            }
+        }
+        let snap = shared.cloned_snapshot();
+        out.push(("tip".into(), fp_bytes(snap.tip_hash().as_slice())));
+        serde_json::json!({ "c14": out })
+    }
+
     /// A Crash marker applies to the segment that precedes it (recovery included): arm it.
     pub fn arm_crash(&mut self, from: usize) {
         let ops = &self.sc.ops;
@@ -302,6 +382,7 @@ impl Exec {
             Op::StepVerify => {
                 self.il.write_u64(2);
                 self.tick();
+                self.cool_verify_cache();
                 if self.node.chain.step_verify() {
                     self.ev("verify");
                     self.observe("verify");
@@ -316,6 +397,7 @@ impl Exec {
                     if self.node.chain.verify_pending() < 100 && self.node.chain.step_preload() {
                         p = true;
                     }
+                    self.cool_verify_cache();
                     if self.node.chain.step_verify() {
                         p = true;
                         self.observe("verify");
@@ -505,6 +587,7 @@ impl Exec {
                     let prop = match why_invalid.as_str() {
                         x if x.starts_with("dao") || x.starts_with("reward") || x.starts_with("cellbase") => "C06",
                         x if x.contains("chain_root") || x.contains("extension") => "C19",
+                        "witness_swap" => "C14",
                         _ => "C03",
                     };
                     let d = format!("{why}: tip #{i} is on a chain with an invalid block ({why_invalid})");
@@ -772,6 +855,10 @@ impl Exec {
         self.check_tip_consistency("final");
         if self.sc.prop == "C07" {
             self.check_epochs();
+        }
+        if self.sc.prop == "C14" {
+            let d = self.answers_digest();
+            self.res.extra = Some(d);
         }
         let snaps = std::mem::take(&mut self.snaps);
         for s in snaps {
